@@ -44,6 +44,10 @@ func vhText2(parent *etree.Element, tag, text string) *etree.Element {
 	return e
 }
 
+// vhSplitText: when set, the NameID and the attribute value of the assertions built next are written as
+// text, comment, CDATA-free text (two character-data tokens around a comment) — the comment-injection layout.
+var vhSplitText bool
+
 func vhAssertionEl(p string, sig int) *vhA {
 	a := &vhA{name: p, sig: sig,
 		ID: vIDString(p + ".ID"), Issuer: vString(p + ".Issuer"), NameID: vString(p + ".NameID"), Method: vString(p + ".Method"),
@@ -62,7 +66,17 @@ func vhAssertionEl(p string, sig int) *vhA {
 		s.CreateAttr("xmlns:ds", "http://www.w3.org/2000/09/xmldsig#")
 	}
 	subj := e.CreateElement("saml:Subject")
-	vhText2(subj, "saml:NameID", a.NameID)
+	if vhSplitText && vFlag(p+".NameID.split-by-comment") {
+		// NameID = part1 <!-- comment --> part2 : the value the IdP signed is part1+part2
+		p1, p2 := vString(p+".NameID.part1"), vString(p+".NameID.part2")
+		a.NameID = p1 + p2
+		nid := subj.CreateElement("saml:NameID")
+		nid.CreateText(p1)
+		nid.CreateComment(vString(p + ".NameID.comment"))
+		nid.CreateText(p2)
+	} else {
+		vhText2(subj, "saml:NameID", a.NameID)
+	}
 	sc := subj.CreateElement("saml:SubjectConfirmation")
 	sc.CreateAttr("Method", a.Method)
 	scd := sc.CreateElement("saml:SubjectConfirmationData")
@@ -686,6 +700,8 @@ func VH_C02_cert_window() {
 // whenever it satisfies the profile checks; a rejection must be explained by a violated check (or by a
 // dependency outcome the models leave open: round-trip screen, certificate trust).
 func vhGenuine(maxKids int) {
+	vhSplitText = true
+	defer func() { vhSplitText = false }()
 	sp := vhOrchSP(false)
 	s := &vhScenario{rootSig: vChoice("root.sig", 2)} // none or valid
 	s.root = vhResponseRoot(s, "samlp:Response")
@@ -745,5 +761,5 @@ func vhGenuine(maxKids int) {
 	vAssert("C08.genuine-response-satisfying-the-profile-is-accepted", vNot(ok))
 }
 
-func VH_C08_genuine()      { vhGenuine(2) }
-func VH_C08_genuine_deep() { vhGenuine(3) }
+func VH_C08_genuine()      { vhGenuine(1) }
+func VH_C08_genuine_deep() { vhGenuine(2) }
